@@ -3,9 +3,10 @@
    compare(old, reload(old)) equal the reference report [exp_cmp] computed from the two
    observations; part (a) says what the reference report is, part (b) is about the Gallina
    transcription of comparison.rs itself. *)
-From Coq Require Import Sorted.
+From Coq Require Import Sorted Permutation.
 From HpoV Require Import Gen.Consts Model.Base Model.Group Model.Onto Model.Query Model.Dump Model.Compare
-  Spec.Sets Proofs.GroupP Run.World Run.C18 Proofs.C18P.
+  Spec.Sets Proofs.GroupP Run.World Run.C18 Proofs.C18P Proofs.C18E Proofs.RecSortedP Proofs.SectionP Proofs.JaxP
+  Model.Binary Model.Script Model.Text.
 
 (* (a) added / removed are exact set differences of the term ids ... *)
 Theorem C18_added_terms_exact : forall d1 d2 x,
@@ -75,6 +76,30 @@ Proof. exact model_swap_records. Qed.
 Theorem C18_model_compare_self_empty : forall o, wf_cmp o -> compare o o = Ok empty_cmp.
 Proof. exact model_compare_self. Qed.
 
+(* two ontologies that agree on everything the comparison reads (term ids with name, direct parents,
+   obsolete flag, replacement; record ids with name and direct terms) compare as equal *)
+Theorem C18_model_compare_equivalent_empty : forall ol orr, wf_cmp ol -> wf_cmp orr -> cmp_equiv ol orr ->
+  compare ol orr = Ok empty_cmp.
+Proof. exact compare_equiv_empty. Qed.
+
+(* COMPARING AN ONTOLOGY WITH ITS BINARY ROUND TRIP REPORTS NOTHING: for every Builder-built and every
+   JAX-loaded ontology the format can carry and whose term and gene names fit the one-byte length
+   field (longer names are cut by the writer: C07), for any record order in the file *)
+Theorem C18_builder_roundtrip_compares_equal : forall icf s codes o order o'', run_script icf s = Ok (codes, Ok o) ->
+  file_ok order o -> (forall l, Permutation (order l) l) ->
+  (forall t, In t (ar_terms (o_arena o)) -> Nlen (t_name t) <= TERM_NAME_LIMIT) ->
+  (forall r, In r (o_genes o) -> Nlen (a_name r) <= GENE_NAME_LIMIT) ->
+  decode icf (encode_with order o) = Ok o'' -> compare o o'' = Ok empty_cmp.
+Proof. exact builder_roundtrip_compares_equal. Qed.
+
+Theorem C18_jax_roundtrip_compares_equal : forall icf tr obo genes hpoa o order o'', obo_closed obo ->
+  load_jax icf tr obo genes hpoa = Ok o ->
+  file_ok order o -> (forall l, Permutation (order l) l) ->
+  (forall t, In t (ar_terms (o_arena o)) -> Nlen (t_name t) <= TERM_NAME_LIMIT) ->
+  (forall r, In r (o_genes o) -> Nlen (a_name r) <= GENE_NAME_LIMIT) ->
+  decode icf (encode_with order o) = Ok o'' -> compare o o'' = Ok empty_cmp.
+Proof. exact jax_roundtrip_compares_equal. Qed.
+
 Print Assumptions C18_added_terms_exact.
 Print Assumptions C18_removed_terms_exact.
 Print Assumptions C18_changed_terms_exact.
@@ -91,3 +116,6 @@ Print Assumptions C18_model_added_records.
 Print Assumptions C18_model_swap_terms.
 Print Assumptions C18_model_swap_records.
 Print Assumptions C18_model_compare_self_empty.
+Print Assumptions C18_model_compare_equivalent_empty.
+Print Assumptions C18_builder_roundtrip_compares_equal.
+Print Assumptions C18_jax_roundtrip_compares_equal.
